@@ -195,6 +195,34 @@ func (r *runner) resolve(mb int, h string) string {
 					return l
 				}
 				return id + ".0"
+			// decorated spellings: path decorations, case, control characters, doubling
+			case "6":
+				return "x/" + id
+			case "7":
+				return "./" + id
+			case "8":
+				return id + "/"
+			case "9":
+				return "../" + id
+			case "10":
+				return id + "/."
+			case "11":
+				if u := strings.ToUpper(id); u != id {
+					return u
+				}
+				return id + "x"
+			case "12":
+				return id + "\x00"
+			case "13":
+				return id + "\n"
+			case "14":
+				return id + id
+			case "15":
+				return "x/latest"
+			case "16":
+				return "\t" + id
+			case "17":
+				return id + "/../" + id
 			}
 		}
 		return "no-such-id"
@@ -855,8 +883,8 @@ func Ops(g *vh.Gen, nm int, p Profile) string {
 		switch {
 		case x < 0.05:
 			return "b"
-		case x < 0.10 && adds[mb] > 0:
-			return "z" + strconv.Itoa(g.Intn(adds[mb])) + "." + strconv.Itoa(g.Intn(6))
+		case x < 0.13 && adds[mb] > 0:
+			return "z" + strconv.Itoa(g.Intn(adds[mb])) + "." + strconv.Itoa(g.Intn(18))
 		case x < 0.16:
 			return "l"
 		case x < 0.22:
